@@ -67,7 +67,7 @@ class Concretizer:
         r = seqs.entry_hook(self, typ, name, depth)
         if r is not seqs.NOT_HANDLED:
             return r
-        if k in ('key', 'map', 'set', 'kseq'):   # containers
+        if k in ('key', 'map', 'set', 'kseq', 'relmap'):   # containers
             from . import containers
             return containers.concretize_entry(self, typ, name)
         alt = getattr(self.P, 'entry_exprs', {}).get(name)
